@@ -3,9 +3,11 @@ from __future__ import annotations
 
 import torch
 
-from common import Infra, Raw, Run, err_class, main_guard, parse_sx, sx, time_limit
+from common import REPO, Infra, Raw, Run, err_class, main_guard, parse_sx, sx, time_limit
 
+import c08_ast as A
 import c08_gen as G
+import c08_hist as H
 import c08_ops as O
 
 
@@ -621,6 +623,82 @@ def two_level_stream(run, drv, n_cases):
             run.oracle_ok("two_level_raises")
 
 
+def shape2_stream(run, drv, n_cases):
+    """correspondence + oracle for unsqueeze / permute / transpose on a lazy stack of lazy stacks:
+    both stack dims of the result, the batch size and every value"""
+    from tensordict import LazyStackedTensorDict
+    rng = run.rng
+    feats = G.FEATS_PLAIN
+    fs = Raw("(feats" + "".join(" (" + " ".join([k] + [str(x) for x in f]) + ")" for k, f in feats) + ")")
+    reqs, metas = [], []
+    for _ in range(n_cases):
+        rank = rng.choice([0, 1, 1, 2])
+        bs = tuple(rng.choice([1, 2, 3]) for _ in range(rank))
+        nin, nout = rng.randint(1, 3), rng.randint(1, 3)
+        sdin = rng.randint(0, rank)
+        sdout = rng.randint(0, rank + 1)
+        r = rank + 2
+        kind = rng.choice(["unsqueeze", "permute", "permute", "transpose", "transpose"])
+        if kind == "unsqueeze":
+            op = ["unsqueeze", rng.randrange(-r - 1, r + 1) if rng.random() < 0.93 else rng.choice([r + 1, -r - 2])]
+        elif kind == "permute":
+            p = list(range(r))
+            rng.shuffle(p)
+            if rng.random() < 0.4:
+                p = [q - r if rng.random() < 0.5 else q for q in p]
+            op = ["permute"] + p          # permutations only (a repeated dim is outside the model)
+        else:
+            op = ["transpose", rng.randrange(-r, r), rng.randrange(-r, r)]
+        metas.append((bs, nin, nout, sdin, sdout, op))
+        reqs.append(sx("c08.shape2", ["bs"] + list(bs), nin, nout, sdin, sdout, fs, op))
+    answers = G.ask_all(drv, reqs)
+    for (bs, nin, nout, sdin, sdout, op), a in zip(metas, answers):
+        model = parse_sx(a)
+        case = {"bs": list(bs), "n_in": nin, "n_out": nout, "sd_in": sdin, "sd_out": sdout, "op": op}
+        run.case(("shape2", bs, nin, nout, sdin, sdout, str(op)))
+        with time_limit(180):
+            inners, denses = [], []
+            for j in range(nout):
+                L, ms = G.mk_lazy(bs, nin, sdin, feats)
+                for m in ms:
+                    for kk, _ in feats:
+                        G.get_leaf(m, kk).add_(j * 1000000)
+                inners.append(L)
+                denses.append(G.dense_of(ms, sdin))
+            LL = LazyStackedTensorDict(*inners, stack_dim=sdout)
+            DD = torch.stack(denses, sdout)
+
+            def f(x):
+                if op[0] == "unsqueeze":
+                    return x.unsqueeze(op[1])
+                if op[0] == "permute":
+                    return x.permute(*op[1:])
+                return x.transpose(op[1], op[2])
+            try:
+                r = f(LL)
+                if isinstance(r, LazyStackedTensorDict) and all(isinstance(t, LazyStackedTensorDict) for t in r.tensordicts):
+                    kindv = ["kind", "lazy2", r.stack_dim, len(r.tensordicts), ["inner_sd"] + [t.stack_dim for t in r.tensordicts]]
+                else:
+                    kindv = ["kind", type(r).__name__]
+                impl = ["ok", kindv] + G.td_canon(r, feats)
+            except Exception:  # noqa: BLE001
+                r, impl = None, ["err"]
+            try:
+                dr = f(DD)
+            except Exception:  # noqa: BLE001
+                dr = None
+        run.count("shape2.outcome", op[0] + ":" + impl[0])
+        run.corr("shape_ops_two_level", case, impl, model)
+        if r is not None and dr is not None:
+            diff = G.same_td(r, dr)
+            if diff:
+                run.oracle_fail("shape2", case, f"stack-of-stacks {op[0]}{tuple(op[1:])} differs from dense: {diff}", f"shape2:{op[0]}")
+            else:
+                run.oracle_ok("shape2")
+        else:
+            run.oracle_ok("shape2_raises")
+
+
 def apply_stream(run, drv, n_cases):
     """correspondence for pointwise operations (`_apply_nest`): `lazy.apply(fn)`, `lazy.apply(fn, other)`
     and the operator spellings, `other` a dense tensordict or a lazy stack along the same dim"""
@@ -631,7 +709,8 @@ def apply_stream(run, drv, n_cases):
         n = rng.randint(1, 4)
         sd = rng.randint(0, len(bs))
         feats = rng.choice([G.FEATS_PLAIN, G.FEATS_NESTED])
-        op = rng.choice(["mul3add1", "neg", "twice_plus", "sub", "where_lt"])
+        op = rng.choice(["mul3add1", "neg", "twice_plus", "sub", "where_lt",
+                         "lt_other", "ge_other_shift", "gt_scalar", "all_any_gt", "all_any_ge0"])
         spelling = rng.choice(["apply", "operator"])
         other_kind = rng.choice(["dense", "lazy"])
         if spelling == "operator":
@@ -665,10 +744,23 @@ def apply_stream(run, drv, n_cases):
                     return x.apply(lambda t, u: 2 * t + u, o) if spelling == "apply" else x * 2 + o
                 if op == "sub":
                     return x.apply(lambda t, u: t - u, o) if spelling == "apply" else x - o
-                return x.apply(lambda t, u: torch.where(t % 3 == 0, t, u), o)
+                if op == "where_lt":
+                    return x.apply(lambda t, u: torch.where(t % 3 == 0, t, u), o)
+                # comparisons (`_dispatch_comparison`) and the reductions of their result
+                if op == "lt_other":
+                    return (x < o).apply(lambda t: t.long())
+                if op == "ge_other_shift":
+                    return (x + 1000003 >= o).apply(lambda t: t.long())
+                if op == "gt_scalar":
+                    return (x > 10001).apply(lambda t: t.long())
+                c = x > 10001 if op == "all_any_gt" else x >= 0
+                return [bool(c.all()), bool(c.any())]
             try:
                 r = f(L, other)
-                impl = G.members_canon(r, feats) if isinstance(r, O.LazyStackedTensorDict) else ["ok", "dense"] + G.td_canon(r, feats)
+                if isinstance(r, list):
+                    impl = ["ok"] + ["true" if v else "false" for v in r]
+                else:
+                    impl = G.members_canon(r, feats) if isinstance(r, O.LazyStackedTensorDict) else ["ok", "dense"] + G.td_canon(r, feats)
             except Exception:  # noqa: BLE001
                 r, impl = None, ["err"]
             try:
@@ -677,13 +769,119 @@ def apply_stream(run, drv, n_cases):
                 dr = None
         run.corr("apply", case, impl, model)
         if r is not None and dr is not None:
-            diff = G.same_td(r, dr)
+            diff = (None if r == dr else f"{r} vs {dr}") if isinstance(r, list) else G.same_td(r, dr)
             if diff:
                 run.oracle_fail("apply", case, f"lazy {op} ({spelling}, {other_kind} operand) differs from dense: {diff}", f"apply:{op}")
             else:
                 run.oracle_ok("apply")
         else:
             run.oracle_ok("apply_raises")
+
+
+def piece_canon(r, feats):
+    """one piece of a split, in the form `resToSexp` prints"""
+    if isinstance(r, O.LazyStackedTensorDict) and len(r.tensordicts) == 0:
+        return ["ok", ["kind", "empty"], ["bs"] + list(r.batch_size)]
+    return ["ok", G.impl_kind(r)] + G.td_canon(r, feats)
+
+
+def resize_stream(run, drv, n_cases):
+    """correspondence for split / chunk / repeat_interleave / repeat (model: Model/C08Resize.lean)"""
+    rng = run.rng
+    reqs, metas = [], []
+    for _ in range(n_cases):
+        bs = shapes_for(rng, run.tier)
+        n = rng.randint(1, 4)
+        sd = rng.randint(0, len(bs))
+        feats = rng.choice([G.FEATS_PLAIN, G.FEATS_NESTED])
+        full = list(bs)
+        full.insert(sd, n)
+        r = len(full)
+        dim = rng.randrange(-r, r) if rng.random() < 0.93 else rng.choice([r, -r - 1])
+        size = full[dim] if -r <= dim < r else 1
+        kind = rng.choice(["split", "split", "split_int", "chunk", "repeat_interleave", "repeat", "expand", "expand"])
+        if kind == "split":
+            sizes, left = [], size
+            while left > 0:
+                c = rng.randint(0 if rng.random() < 0.1 else 1, left)
+                sizes.append(c)
+                left -= c
+            # sizes that do not add up to the size of the dim are not drawn: TensorDict.split clips them
+            # silently (torch.split refuses them): invalid input, outside the property and the model
+            op = ["split", dim] + sizes
+        elif kind == "split_int":
+            op = ["split_int", rng.randint(1, max(1, size + 1)), dim]
+        elif kind == "chunk":
+            k = rng.randint(1, 4)
+            op = ["chunk", k, dim]
+        elif kind == "repeat_interleave":
+            op = ["repeat_interleave", rng.randint(1, 3), dim]
+        elif kind == "expand":
+            # at least as many sizes as batch dims: new leading dims, singletons expanded, rarely a mismatch
+            tgt = [rng.randint(1, 2) for _ in range(rng.choice([0, 0, 1, 2]))]
+            for s_ in full:
+                q = rng.random()
+                tgt.append(rng.randint(2, 3) if (s_ == 1 and q < 0.6) else (s_ + 1 if q > 0.95 else s_))
+            op = ["expand"] + tgt
+        else:
+            op = ["repeat"] + [rng.randint(1, 3) for _ in range(r if rng.random() < 0.92 else r + rng.choice([-1, 1]))]
+        fs = Raw("(feats" + "".join(" (" + " ".join([k] + [str(x) for x in f]) + ")" for k, f in feats) + ")")
+        metas.append((bs, n, sd, feats, op))
+        # chunk(k, dim) is split(ceil(size / k), dim) (torch's definition): the model gets the split size
+        mop = op if op[0] != "chunk" else ["split_int", -(-size // op[1]) if size else 1, dim]
+        reqs.append(sx("c08.resize", ["bs"] + list(bs), n, sd, fs, mop))
+    answers = G.ask_all(drv, reqs)
+    for (bs, n, sd, feats, op), a in zip(metas, answers):
+        model = parse_sx(a)
+        case = {"bs": list(bs), "n": n, "sd": sd, "feats": [k for k, _ in feats], "op": op}
+        run.case(("resize", bs, n, sd, str(op), str(feats)))
+        run.count("resize.kind", op[0])
+        with time_limit(180):
+            L, ms = G.mk_lazy(bs, n, sd, feats)
+            D = G.dense_of(ms, sd)
+
+            def f(x):
+                if op[0] == "split":
+                    return x.split(op[2:], op[1])
+                if op[0] == "split_int":
+                    return x.split(op[1], op[2])
+                if op[0] == "chunk":
+                    return x.chunk(op[1], op[2])
+                if op[0] == "repeat_interleave":
+                    return x.repeat_interleave(op[1], dim=op[2])
+                if op[0] == "expand":
+                    return x.expand(*op[1:])
+                return x.repeat(*op[1:])
+            try:
+                r = f(L)
+                if isinstance(r, (tuple, list)):
+                    impl = ["ok"] + [piece_canon(p, feats) for p in r]
+                else:
+                    impl = G.members_canon(r, feats)
+            except Exception:  # noqa: BLE001
+                r, impl = None, ["err"]
+            try:
+                dr = f(D)
+            except Exception:  # noqa: BLE001
+                dr = None
+        run.count("resize.outcome", op[0] + ":" + impl[0])
+        run.corr("resize", case, impl, model)
+        if r is not None and dr is not None:
+            if isinstance(r, (tuple, list)):
+                diff = None if len(r) == len(dr) else f"{len(r)} pieces vs {len(dr)}"
+                for x, y in zip(r, dr):
+                    if diff is None and not (isinstance(x, O.LazyStackedTensorDict) and len(x.tensordicts) == 0):
+                        diff = G.same_td(x, y)
+                    elif diff is None and tuple(x.batch_size) != tuple(y.batch_size):
+                        diff = f"batch size of an empty piece {tuple(x.batch_size)} vs {tuple(y.batch_size)}"
+            else:
+                diff = G.same_td(r, dr)
+            if diff:
+                run.oracle_fail("resize", case, f"lazy.{op[0]}{tuple(op[1:])} differs from dense: {diff}", f"resize:{op[0]}")
+            else:
+                run.oracle_ok("resize")
+        else:
+            run.oracle_ok("resize_raises")
 
 
 def spec_stream(run, drv, n_cases):
@@ -716,11 +914,14 @@ def main():
     run.trusted += [
         "Model/C08Tensor.lean + Model/C08Index.lean: our rendering of torch (stack/select/index as coordinate maps); validated against torch each run (stream spec_vs_torch), not proved",
         "Model/C08Lazy.lean + Model/C08Lazy2.lean: hand transcription of tensordict/_lazy.py (_split_index, __getitem__, __setitem__, shape ops, ...) and _torch_func.py (_lazy_cat, _stack), also over members that are lazy stacks; tied to the source by the correspondence streams of this check",
+        "harness/c08_ast.py + c08_transcribed.json: the 29 transcribed functions are pinned by a digest of their syntax tree (docstrings, string literals, annotations stripped); an edit is reported as a broken [transcription] correspondence until the model is re-read and the table re-pinned",
         "object identity (which positions of a result share a member object) is outside the Lean model (members are values): covered by the oracle stream alias_stream only",
     ]
     run.build_and_audit(["TdVerif.Props.C08"])
     drv = run.driver()
     quick = run.tier == "quick"
+    # structural tie: the transcribed functions are the ones the model was written from
+    A.obligations(run, str(REPO))
     spec_stream(run, drv, 600 if quick else 6000)
     read_stream(run, drv, 1500 if quick else 20000)
     read_stream(run, drv, 200 if quick else 2000, malformed=True)
@@ -731,7 +932,9 @@ def main():
     cat_stream(run, drv, 500 if quick else 6000)
     misc_stream(run, drv, 600 if quick else 6000)
     two_level_stream(run, drv, 500 if quick else 8000)
-    apply_stream(run, drv, 300 if quick else 4000)
+    shape2_stream(run, drv, 300 if quick else 5000)
+    apply_stream(run, drv, 400 if quick else 6000)
+    resize_stream(run, drv, 500 if quick else 8000)
     # extended domain: the property's oracle on every supported operation of the real code
     O.read_ops_stream(run, 1200 if quick else 14000)
     O.mut_ops_stream(run, 800 if quick else 12000)
@@ -740,6 +943,7 @@ def main():
     O.stack_of_stacks_stream(run, 500 if quick else 8000)
     O.alias_stream(run, 500 if quick else 8000)
     O.source_alias_stream(run, 500 if quick else 8000)
+    H.history_stream(run, 400 if quick else 6000)
     run.finish("proof")
 
 
